@@ -217,6 +217,11 @@ class StmtMixin:
                 yield p.exit, st.fork()
         for nm in names:
             st.env[nm] = ("unk", "%s@loop%d" % (nm, loop_id))
+        if isinstance(n, ast.For):
+            # the loop variable stays bound to the last element after the loop
+            for x in ast.walk(n.target):
+                if isinstance(x, ast.Name) and x.id not in names:
+                    st.env[x.id] = ("unk", "%s@loop%d" % (x.id, loop_id))
         for k in touched_heap:
             st.heap.pop(k, None)
             for fk in [fk for fk in st.facts if mentions(fk, ("attr",) + k)]:
@@ -229,11 +234,140 @@ class StmtMixin:
             st.hits = {h for h in st.hits if h[0] != rg}
             self._drop_reg_facts(st, rg)
         if n.orelse:
+            # the else clause runs when the loop ends without break; a break skips it
+            if any(p.exit is not None and p.exit[0] == "break" for p in body_paths):
+                yield None, st.fork()
             yield from self.block(n.orelse, st, fx)
         else:
             yield None, st
 
+    def _generator_target(self, call, st, fx):
+        """(FuncInfo, receiver term) when `call` invokes a generator function of the repository."""
+        if not isinstance(call, ast.Call) or any(isinstance(a, ast.Starred) for a in call.args):
+            return None
+        f = call.func
+        if isinstance(f, ast.Attribute) and isinstance(f.value, ast.Name) and f.value.id == "self" and fx.cls is not None:
+            cls = self.class_of(fx.selfterm) or fx.cls
+            m = self.prog.lookup_method(cls, f.attr)
+            if m is not None and m.is_generator:
+                return m, fx.selfterm
+        if isinstance(f, ast.Name) and f.id not in st.env:
+            r = self.prog.resolve(fx.module, f.id)
+            if r and r[0] == "func" and r[1].is_generator:
+                return r[1], None
+        return None
+
+    def _for_generator(self, n, gen, selfterm, st, fx):
+        """for x in gen(..): BODY - the generator's body is walked with BODY run at each yield (lazy, interleaved, as at run time)."""
+        func = gen
+        call = n.iter
+        if func.qual in st.frames or len(st.frames) >= self.inline_depth:
+            raise AnalysisError("generator %s: recursion / inlining bound at %s:%d" % (func.qual, fx.func.file, n.lineno))
+        for r, args, s in self.ev_list(list(call.args), st, fx):
+            if r == "raise":
+                yield ("raise", args), s
+                continue
+            params = list(func.params)
+            binds = {}
+            if func.cls is not None and not func.is_static and params and params[0] == "self":
+                binds["self"] = selfterm
+                params = params[1:]
+            for p, a in zip(params, args):
+                binds[p] = a
+            for kwd in call.keywords:
+                for r2, v, s in self.ev(kwd.value, s, fx):
+                    binds[kwd.arg] = v
+                    break
+            self.emit(s, fx, "CALL", n, func=func.qual, recv=selfterm, args=tuple(args), kw=())
+            from .interp import Fx
+            nfx = Fx(func, selfterm if selfterm is not None else fx.selfterm, None)
+            caller = (s.env, s.stack, s.frames)
+            s.gen_callers = s.gen_callers + (caller,)
+            s.stack = s.stack + ((fx.func.file, getattr(n, "lineno", 0), func.qual),)
+            s.frames = s.frames + (func.qual,)
+            s.env = dict(binds)
+
+            def on_yield(val, gs, n=n, fx=fx):
+                gen_ctx = (dict(gs.env), gs.stack, gs.frames)
+                cenv, cstack, cframes = gs.gen_callers[-1]
+                gs.env, gs.stack, gs.frames = dict(cenv), cstack, cframes
+                outer_callers = gs.gen_callers[:-1]
+                gs.gen_callers = outer_callers
+
+                def back(s3, exit_for_gen):
+                    s3.gen_callers = outer_callers + ((s3.env, cstack, cframes),)
+                    s3.env, s3.stack, s3.frames = dict(gen_ctx[0]), gen_ctx[1], gen_ctx[2]
+                    return exit_for_gen, s3
+                for ex, s2 in self.assign(n.target, val, gs, fx, n):
+                    if ex is not None:
+                        s2.consumer_exit = ex
+                        yield back(s2, ("return", NONE))
+                        continue
+                    for ex2, s3 in self.block(n.body, s2, fx):
+                        if ex2 is None or ex2[0] == "continue":
+                            yield back(s3, None)
+                        else:
+                            s3.consumer_exit = ex2       # break / return / raise of the loop body: the generator is abandoned
+                            yield back(s3, ("return", NONE))
+            nfx.on_yield = on_yield
+            for exit_, s2 in self.block(func.node.body, s, nfx):
+                cenv, cstack, cframes = s2.gen_callers[-1]
+                s2.gen_callers = s2.gen_callers[:-1]
+                s2.env, s2.stack, s2.frames = dict(cenv), cstack, cframes
+                ce, s2.consumer_exit = s2.consumer_exit, None
+                if ce is not None:
+                    yield (None if ce[0] == "break" else ce), s2
+                elif exit_ is None or exit_[0] == "return":
+                    yield from (self.block(n.orelse, s2, fx) if n.orelse else [(None, s2)])
+                else:
+                    yield exit_, s2
+
+    def _desugared_for(self, n, st, fx):
+        """Equivalent statement for some iterables: itertools.chain(a, b) -> one loop after the other; a generator expression or
+        list comprehension -> nested for/if; iter(f, sentinel) -> while True: x = f(); if x is sentinel: break."""
+        it = n.iter
+        if isinstance(it, ast.Call) and not it.keywords and not any(isinstance(a, ast.Starred) for a in it.args):
+            nm = it.func.attr if isinstance(it.func, ast.Attribute) else (it.func.id if isinstance(it.func, ast.Name) else None)
+            if nm == "chain" and it.args and not n.orelse and not any(isinstance(x, (ast.Break,)) for b in n.body for x in ast.walk(b)):
+                out = []
+                for a in it.args:
+                    f2 = ast.For(target=n.target, iter=a, body=n.body, orelse=[], lineno=n.lineno, col_offset=n.col_offset)
+                    out.append(ast.copy_location(f2, n))
+                return out
+            if nm == "iter" and isinstance(it.func, ast.Name) and len(it.args) == 2 and isinstance(n.target, ast.Name) and not n.orelse:
+                call = ast.Call(func=it.args[0], args=[], keywords=[])
+                asg = ast.Assign(targets=[ast.Name(id=n.target.id, ctx=ast.Store())], value=call, lineno=n.lineno)
+                sent = it.args[1]
+                test = ast.Compare(left=ast.Name(id=n.target.id, ctx=ast.Load()), ops=[ast.Is() if isinstance(sent, ast.Constant) and sent.value is None else ast.Eq()],
+                                   comparators=[sent])
+                brk = ast.If(test=test, body=[ast.Break()], orelse=[])
+                w = ast.While(test=ast.Constant(value=True), body=[asg, brk] + list(n.body), orelse=[])
+                for x in (asg, brk, w):
+                    ast.copy_location(x, n)
+                ast.fix_missing_locations(w)
+                return [w]
+        if isinstance(it, (ast.GeneratorExp, ast.ListComp)) and not n.orelse:
+            # for x in (E for y in Y if c): BODY  ->  for y in Y: if c: x = E; BODY
+            body = [ast.Assign(targets=[n.target], value=it.elt, lineno=n.lineno)] + list(n.body)
+            for g in reversed(it.generators):
+                for c in reversed(g.ifs):
+                    body = [ast.If(test=c, body=body, orelse=[])]
+                body = [ast.For(target=g.target, iter=g.iter, body=body, orelse=[])]
+            for b in body:
+                ast.copy_location(b, n)
+                ast.fix_missing_locations(b)
+            return body
+        return None
+
     def s_For(self, n, st, fx):
+        alt = self._desugared_for(n, st, fx)
+        if alt is not None:
+            yield from self.block(alt, st, fx)
+            return
+        gt = self._generator_target(n.iter, st, fx)
+        if gt is not None:
+            yield from self._for_generator(n, gt[0], gt[1], st, fx)
+            return
         # literal tuple/list iteration is unrolled exactly
         if isinstance(n.iter, (ast.Tuple, ast.List)) and not n.orelse:
             def go(i, s):
@@ -286,6 +420,8 @@ class StmtMixin:
 
             def bind(bs, loop_id, it=it):
                 val = self._iter_elem(it, loop_id)
+                if isinstance(val, tuple) and val[:1] == ("unk",) and isinstance(n.target, ast.Name):
+                    val = ("unk", "%s@loop%d" % (n.target.id, loop_id))      # the name it keeps after the loop
                 for _ in self.assign(n.target, val, bs, fx, n):
                     pass
                 return None
